@@ -506,6 +506,37 @@ def h_domain_text(X):
     X.reach("judged")
 
 
+CRED_MENU = [b"u", b"\xc3\xbcser", b"p\xc3\xa4ss", b"\xe5\x90\x8d", b"\xff", b"\xc3", b""]
+
+
+def h_auth_text(X):
+    """no stubs: RFC 1929 credentials from a menu of ASCII, multi-byte UTF-8 and invalid UTF-8 byte strings through the
+    real decode; the bytes after the authentication message (CONNECT request + payload) must be consumed exactly at the
+    wire lengths, whatever the credentials decode to, and independently of where the stream is cut"""
+    user = X.choose("user", CRED_MENU)
+    pw = X.choose("password", CRED_MENU)
+    valid = X.boolean("cred_valid")
+    msg = GREET[True] + b"\x01" + bytes([len(user)]) + user + bytes([len(pw)]) + pw + b"\x05\x01\x00\x03\x07example\x00\x50" + b"payload"
+    cut = X.choose("cut", [0, 4, 4 + 2 + len(user), 4 + 3 + len(user) + len(pw), 4 + 3 + len(user) + len(pw) + 4, len(msg) - 3])
+    segs = [msg] if cut == 0 else [msg[:cut], msg[cut:]]
+    outs = run(X, segs, True, lambda u, p: valid)
+    out = outs[-1]
+    # (the generic judge compares what the validator saw octet by octet; invalid UTF-8 is decoded lossily by design, so
+    # this obligation judges the outcome directly)
+    got = [list(m) for m in out.replies]
+    X.check(got[:1] == [[5, 2]], "C21/auth-text/method-reply", f"replies {got}")
+    if not valid:
+        X.reach("refused")
+        X.check(got[1:2] == [[1, 1]] and out.closed and out.address is None and not out.child, "C21/auth-text/not-refused", f"{user!r}/{pw!r} cut={cut}: {out}")
+    if valid:
+        X.reach("accepted")
+        X.check(out.address is not None and out.address[0] == "example" and out.address[1] == 80, "C21/auth-text/destination", f"{user!r}/{pw!r}: destination {out.address}")
+        X.check(bytes(out.child) == b"payload", "C21/auth-text/relayed-bytes", f"{user!r}/{pw!r} cut={cut}: next layer got {bytes(out.child)!r}")
+    if any(c >= 0x80 for c in user + pw):
+        X.reach("non-ascii-credentials")
+    X.reach("judged")
+
+
 def obligations(tier):
     q = tier == "quick"
     n_diff, n_auth, n_seg, n_conn, n_segconn = (12, 12, 10, 24, 12) if q else (14, 14, 12, 30, 24)
@@ -528,6 +559,8 @@ def obligations(tier):
         Symx("domain-text", h_domain_text, bounds=f"domain names of length 0..3 over {len(DOM_BYTES)} byte classes (NUL, '.', letters, DEL, 0x80, 0xFF) x 3 ports x lazy/eager x connect ok/fails; no stubs",
              encoded=ENCODED, must_reach=["judged", "non-ascii", "open-failed"], parallel_depth=2),
     ]
+    obs.append(Symx("auth-credential-text", h_auth_text, bounds=f"RFC 1929 user/password from {len(CRED_MENU)} byte strings (ASCII, 2-/3-byte UTF-8, invalid UTF-8, empty) x validator outcome x 6 cut points, followed by a CONNECT request and payload; no stubs",
+                    encoded=ENCODED, must_reach=["judged", "accepted", "refused", "non-ascii-credentials"], parallel_depth=2))
     obs.append(Symx("greeting-version", lambda X: h_seg(X, 4, False, all_versions=True), bounds="all 256^4 byte strings of length 4 (every version byte, no menu) x every cut point",
                     encoded=ENCODED, must_reach=["judged", "extended-after-refusal"], stubs=STUBS, parallel_depth=2))
     if not q:
